@@ -378,10 +378,14 @@ func c12People(c *fw.Ctx) {
 	}
 	inds := append(append(gedcom.IndividualNodes{}, doc.Individuals()...), doc2.Individuals()...)
 	twin := map[string]*gedcom.IndividualNode{}
+	twinFam := map[string]*gedcom.FamilyNode{}
 	for _, t := range []string{text, g2.Text()} {
 		if d, err := gedcom.NewDocumentFromString(t); err == nil {
 			for _, x := range d.Individuals() {
 				twin[x.Pointer()] = x
+			}
+			for _, x := range d.Families() {
+				twinFam[x.Pointer()] = x
 			}
 		}
 	}
@@ -435,6 +439,16 @@ func c12People(c *fw.Ctx) {
 			c.Count("identity-checks", 1)
 			if v := a.Similarity(a, opts); math.Abs(v-1) > c12Tol {
 				c.Violation("identity:IndividualNode.Similarity", fmt.Sprintf("%s vs itself = %v, want 1 (options %s)\n%s", a.Pointer(), v, opts, a.GEDCOMString(0)), pl)
+			}
+		}
+		if ta := twin[a.Pointer()]; ta != nil {
+			c.Count("same-object-vs-equal-copy", 1)
+			if self, cp := a.Similarity(a, opts), a.Similarity(ta, opts); math.Abs(self-cp) > c12Tol {
+				c.Violation("same-object-vs-equal-copy:IndividualNode.Similarity", fmt.Sprintf("%s scores %.12f with itself but %.12f with an equal individual decoded from the same text", a.Pointer(), self, cp), pl)
+			}
+			ss, sc := a.SurroundingSimilarity(a, opts, true), a.SurroundingSimilarity(ta, opts, true)
+			if math.Abs(ss.WeightedSimilarity()-sc.WeightedSimilarity()) > c12Tol || math.Abs(ss.ParentsSimilarity-sc.ParentsSimilarity) > c12Tol {
+				c.Violation("same-object-vs-equal-copy:SurroundingSimilarity", fmt.Sprintf("%s: surrounding similarity with itself %.12f (parents %.6f) but with an equal individual decoded from the same text %.12f (parents %.6f)", a.Pointer(), ss.WeightedSimilarity(), ss.ParentsSimilarity, sc.WeightedSimilarity(), sc.ParentsSimilarity), pl)
 			}
 		}
 		c.Count("neutral-checks", 2)
@@ -532,6 +546,24 @@ func c12People(c *fw.Ctx) {
 			chk("FamilyNode.Similarity", a.Similarity(b, 0, opts), b.Similarity(a, 0, opts), what)
 			chk("HusbandNode.Similarity", a.Husband().Similarity(b.Husband(), opts), b.Husband().Similarity(a.Husband(), opts), what)
 			chk("WifeNode.Similarity", a.Wife().Similarity(b.Wife(), opts), b.Wife().Similarity(a.Wife(), opts), what)
+		}
+		// The score of a family with itself must be what it is with an equal
+		// family from a second decode of the same text (siblings are compared
+		// through the very same parents object), and a family in which nobody
+		// is known is all "missing information".
+		if tf := twinFam[fams[x].Pointer()]; tf != nil {
+			a := fams[x]
+			c.Count("same-object-vs-equal-copy", 1)
+			self, cp := a.Similarity(a, 0, opts), a.Similarity(tf, 0, opts)
+			if math.Abs(self-cp) > c12Tol {
+				c.Violation("same-object-vs-equal-copy:FamilyNode.Similarity", fmt.Sprintf("family %s scores %.12f with itself but %.12f with an equal family decoded from the same text (options %s)\n%s", a.Pointer(), self, cp, opts, a.GEDCOMString(0)), pl)
+			}
+			if a.Husband() == nil && a.Wife() == nil {
+				c.Count("neutral-checks", 1)
+				if self != 0.5 {
+					c.Violation("neutral:FamilyNode.Similarity", fmt.Sprintf("family %s has neither husband nor wife but scores %v with itself, want the neutral 0.5", a.Pointer(), self), pl)
+				}
+			}
 		}
 		if h := fams[x].Husband(); h != nil {
 			c.Count("neutral-checks", 1)
